@@ -1,49 +1,9 @@
 // t_fmanip.cpp - C12: frexp / ldexp / scalbn / ilogb / logb / frac / fmax / fmin / fdim match the <cmath> definitions.
-#include "vx_float.hpp"
-#include <climits>
+
+#include "ops_fmanip.hpp"
 
 namespace vx {
-
-// ---- frexp: two outputs -------------------------------------------------------------------
-template<class V> inline V frexp_sig(V a) { typename int_peer<V>::type e; return avel::frexp(a, &e); }
-template<class V> inline typename int_peer<V>::type frexp_exp(V a) { typename int_peer<V>::type e; (void)avel::frexp(a, &e); return e; }
-template<class S> inline S frexp_sig(Sc<S> a) { typename sint_of<S>::type e = 0; return avel::frexp(a.v, &e); }
-template<class S> inline typename sint_of<S>::type frexp_exp(Sc<S> a) { typename sint_of<S>::type e = 0; (void)avel::frexp(a.v, &e); return e; }
-
-template<class S> inline std::uint64_t int_result_bits(long long v) { return std::uint64_t(v) & low_mask(8 * sizeof(S)); }
-inline int clamp_int(long long e) { return e > INT_MAX ? INT_MAX : (e < INT_MIN ? INT_MIN : int(e)); }
-
-#define VX_FM_OP(NAME, ARITY, EXPR, MODEL, DOMAIN, SAME, NT)                                     \
-    struct NAME : OpBase {                                                                      \
-        static const int arity = ARITY;                                                         \
-        static const char* name() { return #NAME; }                                             \
-        template<class V> static auto apply(V a, V b, V) VX_AUTO(EXPR)                          \
-        template<class S> static std::uint64_t model(S a, S b, S) { (void)b; return MODEL; }    \
-        template<class S> static bool in_domain(S a, S b, S) { (void)a; (void)b; return DOMAIN; } \
-        template<class S> static bool same(std::uint64_t e, std::uint64_t g) { return SAME<S>(e, g); } \
-        template<class S> static bool nontrivial(S a, S b, S) { (void)a; (void)b; return NT; }  \
-    };
-template<class S> inline bool plain_eq(std::uint64_t e, std::uint64_t g) { return e == g; }
-template<class S> inline bool special(S a) { return a != a || std::isinf(a) || a == S(0) || std::fabs(a) < std::numeric_limits<S>::min(); }
-
-template<class S> inline std::uint64_t m_frexp_sig(S a) { int e = 0; return bits_of(S(std::frexp(a, &e))); }
-template<class S> inline std::uint64_t m_frexp_exp(S a) { int e = 0; (void)std::frexp(a, &e); return int_result_bits<S>(e); }
-
-// the statement: the larger/smaller operand; the other operand when exactly one is NaN (quiet or signalling); NaN when both are
-template<class S> inline std::uint64_t m_fmax(S a, S b) { if (a != a) return bits_of(b); if (b != b) return bits_of(a); return bits_of(a < b ? b : a); }
-template<class S> inline std::uint64_t m_fmin(S a, S b) { if (a != a) return bits_of(b); if (b != b) return bits_of(a); return bits_of(b < a ? b : a); }
-
-VX_FM_OP(frexp_significand, 1, frexp_sig(a), m_frexp_sig(a), true, same_bits_nan, special(a))
-VX_FM_OP(frexp_exponent, 1, frexp_exp(a), m_frexp_exp(a), (a == a && !std::isinf(a)), plain_eq, special(a))
-VX_FM_OP(ldexp, 2, avel::ldexp(un(a), bits_as_int_vector(b)), bits_of(S(std::ldexp(a, clamp_int(int_of_bits(b))))), true, same_bits_nan, (special(a) || special(from_bits<S>(model(a, b, b)))))
-VX_FM_OP(scalbn, 2, avel::scalbn(un(a), bits_as_int_vector(b)), bits_of(S(std::scalbn(a, clamp_int(int_of_bits(b))))), true, same_bits_nan, (special(a) || special(from_bits<S>(model(a, b, b)))))
-VX_FM_OP(ilogb, 1, avel::ilogb(un(a)), int_result_bits<S>(std::ilogb(a)), true, plain_eq, special(a))
-VX_FM_OP(logb, 1, avel::logb(un(a)), bits_of(S(std::logb(a))), true, same_bits_nan, special(a))
-VX_FM_OP(frac, 1, avel::frac(un(a)), bits_of(S(a - std::trunc(a))), true, same_value_nan, (special(a) || std::trunc(a) == a))
-VX_FM_OP(fmax, 2, avel::fmax(un(a), un(b)), m_fmax(a, b), true, same_value_nan, (a != a || b != b || (a == S(0) && b == S(0))))
-VX_FM_OP(fmin, 2, avel::fmin(un(a), un(b)), m_fmin(a, b), true, same_value_nan, (a != a || b != b || (a == S(0) && b == S(0))))
-// fdim is stated as max(x - y, 0): where x - y is NaN (a NaN operand, or infinities of equal sign) the statement gives no value, so those tuples are not demanded
-VX_FM_OP(fdim, 2, avel::fdim(un(a), un(b)), bits_of(S(a > b ? a - b : S(0))), (a == a && b == b && !(std::isinf(a) && std::isinf(b) && std::signbit(a) == std::signbit(b))), same_value_nan, (!(a > b) || std::isinf(a) || std::isinf(b)))
+using namespace ofm;
 
 inline std::vector<std::uint64_t> alphabet_EXP(unsigned lane_bits) {
     std::vector<long long> v;
